@@ -118,7 +118,7 @@ func init() {
 		Rule: "seeded entry sets (0..400 entries, keys of length 0..64 text/binary, values nil/\"\"/0/zero struct/populated registered struct/map/slice, expiry none/+1h/-1h, LRU/LFU counters touched) " +
 			"dumped and restored across every pairing ShardedMap<->SyncMap and ShardedMapOf[V]->ShardedMapOf[V] (V=string, struct), relayed through 1..4 instances; Walk/Read of every relay compared with the source; " +
 			"truncated streams must restore a subset without panic; distinct_nontrivial = distinct (pairing, size class, chain length, value-kind set) cells with >=3 entries",
-		Required: []string{"concurrent_dumps", "roundtrips", "entries.compared", "truncations", "pair.ShardedMap->SyncMap", "pair.SyncMap->ShardedMap", "pair.SyncMap->SyncMap", "pair.ShardedMap->ShardedMap", "pair.Of[string]", "pair.Of[struct]"},
+		Required: []string{"failed_dumps_before", "concurrent_dumps", "roundtrips", "entries.compared", "truncations", "pair.ShardedMap->SyncMap", "pair.SyncMap->ShardedMap", "pair.SyncMap->SyncMap", "pair.ShardedMap->ShardedMap", "pair.Of[string]", "pair.Of[struct]"},
 		Assumptions: []string{"reflect.DeepEqual on the harness' value alphabet is the equality of values (alphabet avoids gob's nil-vs-empty ambiguities)"},
 	})
 }
@@ -246,6 +246,17 @@ func c13Case(b *Batch, idx int) {
 		pair := curKind + "->" + dstKind
 		pairs += pair + ";"
 		b.R.Count("pair."+pair, 1)
+		if rng.Intn(4) == 0 && len(srcSnap) > 0 {
+			// a dump that fails half-way (broken pipe) must not affect later dumps
+			_, ferr := cur.Dump(&brokenWriter{left: rng.Intn(200)})
+			if ferr != nil {
+				b.R.Count("failed_dumps_before", 1)
+			}
+		}
+		if rng.Intn(3) == 0 {
+			dcfg.DeleteExpiredAfter = time.Millisecond // what the receiver's janitor would remove later is not Restore's business
+			dst = newBackend(dstKind, dcfg)
+		}
 		var buf bytes.Buffer
 		var dn int
 		var derr error
@@ -469,4 +480,20 @@ type slowWriter struct{ w io.Writer }
 func (s *slowWriter) Write(p []byte) (int, error) {
 	runtime.Gosched()
 	return s.w.Write(p)
+}
+
+// brokenWriter accepts a few bytes and then fails like a closed connection.
+type brokenWriter struct{ left int }
+
+func (w *brokenWriter) Write(p []byte) (int, error) {
+	if w.left <= 0 {
+		return 0, io.ErrClosedPipe
+	}
+	if len(p) > w.left {
+		n := w.left
+		w.left = 0
+		return n, io.ErrClosedPipe
+	}
+	w.left -= len(p)
+	return len(p), nil
 }
